@@ -7,6 +7,6 @@ src = f"/tmp/seed-out/{sid}"; dst = f"/verif/seeded/{sid}"
 if os.path.isdir(dst): shutil.rmtree(dst)
 shutil.copytree(src, dst, ignore=shutil.ignore_patterns('testsuite*','*.log','suite*','full_suite*','pristine-pass-list.txt'))
 json.dump({"id": sid, "property": prop, "breaks": breaks, "needs": needs, "demo_cmd": demo,
-           "source": "independent sub-agent (round 2: told which mutations were already taken) given only the property text and a scratch worktree"},
+           "source": "independent sub-agent (later round: told which mutations were already taken) given only the property text and a scratch worktree"},
           open(f"{dst}/meta.json", "w"), indent=1)
 print("imported", sid)
